@@ -33,11 +33,11 @@ static void *__va_arg_gp(__va_elem *ap, int sz, int align) {
 }
 
 static void *__va_arg_fp(__va_elem *ap, int sz, int align) {
-  if (ap->fp_offset >= 112)
+  if (ap->fp_offset >= 176)
     return __va_arg_mem(ap, sz, align);
 
   void *r = ap->reg_save_area + ap->fp_offset;
-  ap->fp_offset += 8;
+  ap->fp_offset += 16;
   return r;
 }
 
